@@ -251,6 +251,56 @@ func emptyGeom(r *vproto.Rng, depth int) geom.Geom {
 
 func P(x, y float64) geom.Point { return geom.Point{X: x, Y: y} }
 
+// nanify overwrites about one coordinate in five by a NaN (quiet, either sign, with a payload). NaN is outside the
+// property's quantifier: such lines are judged on Len/Points as usual and on Bounds by correspondence with the
+// model run with math.Min/Max/< on NaN (class suffix -nan; DIFF only).
+func nanify(g geom.Geom, r *vproto.Rng) geom.Geom {
+	nan := func(v float64) float64 {
+		if r.Intn(5) != 0 {
+			return v
+		}
+		return math.Float64frombits([]uint64{0x7ff8000000000000, 0xfff8000000000000, 0x7ff8000000000001, 0x7ffc0000deadbeef}[r.Intn(4)])
+	}
+	pts := func(ps []geom.Point) {
+		for i := range ps {
+			ps[i].X, ps[i].Y = nan(ps[i].X), nan(ps[i].Y)
+		}
+	}
+	switch t := g.(type) {
+	case geom.Point:
+		return geom.Point{X: nan(t.X), Y: nan(t.Y)}
+	case geom.MultiPoint:
+		pts(t)
+	case geom.LineString:
+		pts(t)
+	case geom.MultiLineString:
+		for _, l := range t {
+			pts(l)
+		}
+	case geom.Polygon:
+		for _, l := range t {
+			pts(l)
+		}
+	case geom.MultiPolygon:
+		for _, pg := range t {
+			for _, l := range pg {
+				pts(l)
+			}
+		}
+	case geom.GeometryCollection:
+		for i := range t {
+			if t[i] != nil {
+				t[i] = nanify(t[i], r)
+			}
+		}
+	case *geom.Bounds:
+		if t != nil {
+			t.Min.X, t.Min.Y, t.Max.X, t.Max.Y = nan(t.Min.X), nan(t.Min.Y), nan(t.Max.X), nan(t.Max.Y)
+		}
+	}
+	return g
+}
+
 func corpus() []geom.Geom {
 	inf := math.Inf(1)
 	L := func(p ...geom.Point) geom.LineString { return geom.LineString(p) }
@@ -314,6 +364,23 @@ func corpus() []geom.Geom {
 			gc[i] = geom.MultiPoint(rings[i])
 		}
 		gs = append(gs, geom.MultiPoint(ps), geom.LineString(ps), geom.Polygon(rings), geom.Polygon{ps}, ls, pgs, gc)
+	}
+	// … and the same counts (and beyond: 4096, 4097) with EVERY vertex extending the box: a fold that stops early,
+	// or skips the tail / the head of a long slice, loses an extreme (self-mutation N3: extendPoints looked at the
+	// first 2048 points only). Ascending and descending, extreme first and extreme last.
+	for _, n := range []int{65, 1025, 2049, 4097} {
+		up, down := make([]geom.Point, n), make([]geom.Point, n)
+		for i := range up {
+			up[i] = P(float64(i), float64(-2*i))
+			down[i] = P(float64(n-i), float64(3*i))
+		}
+		for _, ps := range [][]geom.Point{up, down} {
+			half := len(ps) / 2
+			gs = append(gs, geom.MultiPoint(ps), geom.LineString(ps), geom.Polygon{ps}, geom.Polygon{{}, ps[:half], {}, ps[half:]},
+				geom.MultiLineString{geom.LineString(ps[:1]), {}, geom.LineString(ps[1:])},
+				geom.MultiPolygon{{ps[:half]}, {}, {{}, ps[half:]}},
+				geom.GeometryCollection{geom.LineString(ps[:half]), geom.MultiPoint{}, geom.MultiPoint(ps[half:])})
+		}
 	}
 	return gs
 }
@@ -408,6 +475,9 @@ func gen(seed uint64, tier string) {
 		if i%500 == 0 {
 			fmt.Fprintln(out, "new")
 		}
+		if i%25 == 0 {
+			fmt.Fprintf(out, "geom %s\n", vproto.GeomToks(nanify(genGeom(r, 3, false), r)))
+		}
 	}
 	// concurrent callers (see runCC): large geometries of every type, random ones, and the box operations
 	nCC := 6
@@ -417,7 +487,7 @@ func gen(seed uint64, tier string) {
 	for _, g := range corpus() {
 		n := 0
 		vproto.Safe(func() { n = g.Len() })
-		if n >= 256 {
+		if n >= 256 && n <= 2100 {
 			fmt.Fprintf(out, "cc geom %s\n", vproto.GeomToks(g))
 		}
 	}
